@@ -4,6 +4,21 @@
 //                reuse histories, heap-balance and ledger monitors)
 //   --prop C03 : accepted texts -> document identical to the denoted value
 #include <memory>
+#include <string>
+#include <vector>
+// PROGRAM PHASE: a global defined ABOVE every library include; its constructor (body below) parses and dumps a few texts
+// during static initialisation, before any dynamic initialiser the library's headers may add to this translation unit
+struct EarlyParse {
+  struct R {
+    bool ok;
+    int code;
+    size_t off;
+    std::string dump;
+  };
+  std::vector<R> r;
+  EarlyParse();
+};
+static EarlyParse g_early;
 
 #include "common/families.hpp"
 #include "common/fence_alloc.hpp"
@@ -48,6 +63,17 @@ static auto clear_pool(A& a) -> decltype(a.Clear(), void()) {
   a.Clear();
 }
 static void clear_pool(...) {}
+
+static const char* kEarlyTexts[] = {"{\"a\":[1,-2,3.25,1e300,18446744073709551615,123456789012345678901234567890],\"s\":\"x\\n\\u00e9\\ud83d\\ude00 \\\"q\\\"\",\"t\":[true,false,null]}",
+                                     "[1234567890123,100000000,99999999,0.1,2.2250738585072011e-308,1.7976931348623157e308]", "   [ \"long string long string long string long string long string long string\" ,  {} , [] ]  ",
+                                     "[1e400]", "{\"a\":tru}", "\"\\ud800\"", "[1,2"};
+EarlyParse::EarlyParse() {
+  for (const char* t : kEarlyTexts) {
+    Document d;
+    d.Parse(t, std::strlen(t));
+    r.push_back({!d.HasParseError(), (int)d.GetParseError(), d.GetErrorOffset(), d.HasParseError() ? std::string() : d.Dump()});
+  }
+}
 
 static bool parse_code_ok(int c) { return (c >= 1 && c <= 10) || c == 15; }
 
@@ -472,6 +498,22 @@ int main(int argc, char** argv) {
   for (auto& f : tf) byname[f.meta.name] = &f;
 
   vr::CheckFn check = [&](const vr::Family& f, uint64_t idx, vr::Ctx& ctx) {
+    if (f.name == "PH_static_initialisation_phase") {
+      const char* t = kEarlyTexts[idx];
+      Document d;
+      d.Parse(t, std::strlen(t));
+      ctx.eval();
+      ctx.nontriv();
+      if (ctx.want_sample) ctx.sample(t);
+      const EarlyParse::R& e = g_early.r[idx];
+      std::string now = d.HasParseError() ? std::string() : d.Dump();
+      if (e.ok != !d.HasParseError() || e.code != (int)d.GetParseError() || e.off != d.GetErrorOffset() || e.dump != now)
+        ctx.violation("static_init_phase", "parse_differs_during_static_initialisation", t, "Parse during static initialisation: ok=%d code=%d offset=%zu dump=%s ; from main(): ok=%d code=%d offset=%zu dump=%s", (int)e.ok, e.code, e.off,
+                      e.dump.substr(0, 150).c_str(), (int)!d.HasParseError(), (int)d.GetParseError(), d.GetErrorOffset(), now.substr(0, 150).c_str());
+      ref::Result r = ref::parse(std::string(t));
+      if (e.ok != r.ok) ctx.violation("static_init_phase", "parse_differs_during_static_initialisation", t, "Parse during static initialisation %s a text that the reference %s", e.ok ? "accepts" : "rejects", r.ok ? "accepts" : "rejects");
+      return;
+    }
     if (f.name == "H1_outcome_after_history") {
       const std::string& X = hs.S[idx / hs.S.size()];
       const std::string& Y = hs.S[idx % hs.S.size()];
@@ -547,6 +589,13 @@ int main(int argc, char** argv) {
 
   std::vector<vr::Family> fams;
   for (auto& f : tf) fams.push_back(f.meta);
+  vr::Family fph;
+  fph.name = "PH_static_initialisation_phase";
+  fph.count = sizeof kEarlyTexts / sizeof kEarlyTexts[0];
+  fph.group = "PH";
+  fph.chunk = 1;
+  fph.rule = "7 texts (numbers of every path, escapes, whitespace, overflow, malformed, truncated) parsed and dumped from the constructor of a global defined above every library include, i.e. during static initialisation: same outcome, error code, offset and Dump() as the same call from main()";
+  fams.push_back(fph);
   if (prop == "C02") {
     fams.push_back(fpairs);
     if (!quick) fams.push_back(ftriples);
